@@ -402,7 +402,11 @@ def generic_job(agg, job, tier, seed):
         agg.hashes.add((job["engine"], h))
     if d.get("inconclusive"):
         # rounds skipped because the machine was stalled while a watchdog fired: not a verdict either way
-        agg.notes.extend("skipped: " + x for x in d["inconclusive"])
+        for x in d["inconclusive"]:
+            if "process-level watchdog" in x:
+                agg.inconclusive.append(x)
+            else:
+                agg.notes.append("skipped: " + x)
     if d.get("notes"):
         agg.notes.extend(d["notes"])
     if len(agg.samples) < 4:
